@@ -42,6 +42,7 @@ type incremental[Obj comparable] struct {
 type opResult struct {
 	original any              // the original object
 	rev      statedb.Revision // revision of the object
+	origRev  statedb.Revision // revision of the change that is being reconciled (differs from rev on retries)
 	err      error
 	id       uint64 // the "pending" identifier
 }
@@ -96,7 +97,7 @@ func (incr *incremental[Obj]) single(ctx context.Context, txn statedb.ReadTxn, c
 		// Clear retries as the object has changed.
 		incr.retries.Clear(obj)
 
-		incr.processSingle(ctx, txn, obj, rev, change.Deleted, 0)
+		incr.processSingle(ctx, txn, obj, rev, rev, change.Deleted, 0)
 		incr.numReconciled++
 		if incr.numReconciled >= incr.config.IncrementalRoundSize {
 			break
@@ -177,7 +178,7 @@ func (incr *incremental[Obj]) batch(ctx context.Context, txn statedb.ReadTxn, ch
 			if entry.Result == nil {
 				incr.retries.Clear(entry.Object)
 			}
-			incr.results[entry.Object] = opResult{rev: entry.Revision, id: status.ID, err: entry.Result, original: entry.original}
+			incr.results[entry.Object] = opResult{rev: entry.Revision, origRev: entry.Revision, id: status.ID, err: entry.Result, original: entry.original}
 		}
 	}
 
@@ -192,7 +193,7 @@ func (incr *incremental[Obj]) processRetries(ctx context.Context, txn statedb.Re
 			break
 		}
 		incr.retries.Pop()
-		incr.processSingle(ctx, txn, item.object.(Obj), item.rev, item.delete, item.statusID)
+		incr.processSingle(ctx, txn, item.object.(Obj), item.rev, item.origRev, item.delete, item.statusID)
 		incr.numReconciled++
 	}
 	return incr.retries.LowWatermark()
@@ -200,7 +201,8 @@ func (incr *incremental[Obj]) processRetries(ctx context.Context, txn statedb.Re
 
 // processSingle reconciles a single object. [statusID] is non-zero for retries and is
 // the identifier of the error status that was stored for the object at revision [rev].
-func (incr *incremental[Obj]) processSingle(ctx context.Context, txn statedb.ReadTxn, obj Obj, rev statedb.Revision, delete bool, statusID uint64) {
+// [origRev] is the revision of the change being reconciled, which for retries is older than [rev].
+func (incr *incremental[Obj]) processSingle(ctx context.Context, txn statedb.ReadTxn, obj Obj, rev, origRev statedb.Revision, delete bool, statusID uint64) {
 	start := time.Now()
 
 	var (
@@ -212,7 +214,7 @@ func (incr *incremental[Obj]) processSingle(ctx context.Context, txn statedb.Rea
 		err = incr.config.Operations.Delete(ctx, txn, rev, obj)
 		if err != nil {
 			// Deletion failed. Retry again later.
-			incr.retries.Add(obj, rev, rev, true, err)
+			incr.retries.Add(obj, rev, origRev, true, err)
 		}
 	} else {
 		// Clone the object so it can be mutated by Update()
@@ -223,7 +225,7 @@ func (incr *incremental[Obj]) processSingle(ctx context.Context, txn statedb.Rea
 		if statusID == 0 {
 			statusID = incr.config.GetObjectStatus(obj).ID
 		}
-		incr.results[obj] = opResult{original: orig, id: statusID, rev: rev, err: err}
+		incr.results[obj] = opResult{original: orig, id: statusID, rev: rev, origRev: origRev, err: err}
 	}
 	incr.metrics.ReconciliationDuration(incr.moduleID, incr.name, op, time.Since(start))
 
@@ -295,7 +297,7 @@ func (incr *incremental[Obj]) commitStatus() (numErrors int) {
 			retryObj := incr.config.SetObjectStatus(
 				incr.config.CloneObject(written),
 				incr.config.GetObjectStatus(result.original.(Obj)))
-			incr.retries.Add(retryObj, newRevision, result.rev, false, result.err)
+			incr.retries.Add(retryObj, newRevision, result.origRev, false, result.err)
 			incr.retries.setStatusID(retryObj, status.ID)
 		}
 	}
